@@ -991,6 +991,9 @@ func (e *Enc) loopCallVerdict(ml *mapLoop, c *ssa.Call, v *orderVerdict) {
 		if k == allocKey {
 			continue
 		}
+		if _, isGhost := e.P.Spec.Ghosts[k]; isGhost {
+			continue // specification-only state (event counters)
+		}
 		if strings.HasPrefix(k, "M$") && !outerSlice {
 			continue
 		}
